@@ -205,7 +205,7 @@ func streams(r *common.Run, a *agg) {
 	// ---- injected reader / writer failures on short streams --------------------------------------
 	streamsFaults(r, a, out, ref)
 	// ---- longer streams, at most k deviations ------------------------------------------------------
-	streamsDeviations(r, a, out, ref)
+	streamsDeviations(r, a, out, ref, maxTotal)
 	// ---- streams that are not valid: shorter than the header, wrong magic ---------------------------
 	streamsInvalid(r, a, out, ref)
 
@@ -529,7 +529,7 @@ func devScripts(l, k int, fn func(s script)) {
 	})
 }
 
-func streamsDeviations(r *common.Run, a *agg, out *outcomes, ref func(pp, n int) []byte) {
+func streamsDeviations(r *common.Run, a *agg, out *outcomes, ref func(pp, n int) []byte, maxTotal int) {
 	k := 2
 	if r.Thorough() {
 		k = 3
@@ -540,10 +540,13 @@ func streamsDeviations(r *common.Run, a *agg, out *outcomes, ref func(pp, n int)
 		n, pp int // plaintext length, pattern
 	}
 	var tasks []task
-	for n := 48; n >= 9; n-- { // large first: better balance
+	// every stream longer than those whose compositions were all enumerated, up to 3 blocks
+	for n := 48; n >= 1; n-- { // large first: better balance
 		for pp := 0; pp < 3; pp++ {
-			tasks = append(tasks, task{true, n, pp})
-			if n >= 25 {
+			if 16+n > maxTotal {
+				tasks = append(tasks, task{true, n, pp})
+			}
+			if n > maxTotal {
 				tasks = append(tasks, task{false, n, pp})
 			}
 		}
